@@ -526,19 +526,61 @@ instance (d : Doc) : Decidable (ScopesOk d) := by unfold ScopesOk; infer_instanc
 instance (d : Doc) : Decidable (GlobalOk d) := by unfold GlobalOk; infer_instance
 instance (k : Kind) (d : Doc) : Decidable (WellFormed k d) := by unfold WellFormed; infer_instance
 
+/-! ## verifier.NewVerifierWithOptions (the guards in front of the verifier value)
+
+`verifier.New` and `verifier.NewWithOptions` (deprecated) put their OCI document into the
+options and call this constructor. -/
+
+def validateOpt (k : Kind) : Option Doc → Except String Unit
+  | none => .ok ()
+  | some d => validate k d
+
+/-- the four consecutive guards: trust store, at least one document, the OCI document if given,
+the blob document if given -/
+def newVerifier (storeNil : Bool) (oci blob : Option Doc) : Except String Unit :=
+  if storeNil then .error "trustStore cannot be nil"
+  else if oci.isNone && blob.isNone then .error "ociTrustPolicy and blobTrustPolicy both cannot be nil"
+  else match validateOpt .oci oci with
+    | .error e => .error e
+    | .ok _ => validateOpt .blob blob
+
+def Kind.other : Kind → Kind
+  | .oci => .blob
+  | .blob => .oci
+
+/-- the (OCI, blob) arguments when `doc` of kind `k` is handed over together with `other` -/
+def ctorArgs (k : Kind) (doc : Doc) (other : Option Doc) : Option Doc × Option Doc :=
+  match k with
+  | .oci => (some doc, other)
+  | .blob => (other, some doc)
+
+/-- an absent document breaks no rule -/
+def optWF (k : Kind) : Option Doc → Bool
+  | none => true
+  | some d => decide (WellFormed k d)
+
 /-! ## observation -/
 
 structure Input where
-  kind : String     -- "oci" | "blob" | "regex"
-  doc : Doc         -- kinds oci, blob
-  rx : String       -- kind regex: "fileName" | "domain" | "repository" | "scope"
-  text : Text       -- kind regex: the candidate text
+  kind : String       -- "oci" | "blob" | "regex" | "ctor"
+  doc : Doc           -- kinds oci, blob: the document under test
+  other : Option Doc  -- kinds oci, blob: a document of the other kind given to the
+                      -- constructors together with `doc`
+  rx : String         -- kind regex: "fileName" | "domain" | "repository" | "scope";
+                      -- kind ctor: "no-documents"
+  text : Text         -- kind regex: the candidate text
   deriving Repr, FromJson, ToJson
 
 structure Obs where
   okStruct : Bool               -- Validate() of the document built through the struct API returned nil
-  okJson : Bool                 -- … of the document marshalled to JSON and decoded again
-  okVerifier : Bool             -- verifier.NewVerifierWithOptions accepted the document
+  okRepeat : List Bool          -- Validate() again on the same object; on an object that held (and
+                                -- validated) a well-formed document before; … an ill-formed one before
+  okJson : Bool                 -- Validate() of the document marshalled to JSON and decoded again
+  okVerifier : Bool             -- verifier.NewVerifierWithOptions accepted the document alone
+  okPair : Bool                 -- … accepted it together with `other`
+  okNew : Bool                  -- deprecated constructor, document alone (OCI: verifier.New,
+                                -- blob: verifier.NewWithOptions(nil, …, {BlobTrustPolicy}))
+  okNewWithOptions : Bool       -- verifier.NewWithOptions with both documents
   levels : List (List KV)       -- accepted documents: per statement the enforcement map of
                                 -- GetVerificationLevel, sorted by type
   deriving DecidableEq, Repr, FromJson, ToJson
@@ -553,6 +595,9 @@ def recognise (rx : String) (t : Text) : Bool :=
   else if rx == "repository" then repositoryRx.matches t
   else if rx == "scope" then t == Spec.wildcard || validScopeFormat t
   else false
+
+/-- the `ctor` cases: the constructors are given no document at all (nil pointers) -/
+def ctorGuard : Except String Unit := newVerifier false none none
 
 def insertKV (kv : KV) : List KV → List KV
   | [] => [kv]
@@ -574,10 +619,14 @@ def run (i : Input) : Obs :=
   match kindOf i.kind with
   | some k =>
     let ok := isOk (validate k i.doc)
-    { okStruct := ok, okJson := ok, okVerifier := ok, levels := if ok then levelsOf i.doc else [] }
+    let alone := isOk (newVerifier false (ctorArgs k i.doc none).1 (ctorArgs k i.doc none).2)
+    let pair := isOk (newVerifier false (ctorArgs k i.doc i.other).1 (ctorArgs k i.doc i.other).2)
+    { okStruct := ok, okRepeat := [ok, ok, ok], okJson := ok, okVerifier := alone, okPair := pair,
+      okNew := alone, okNewWithOptions := pair, levels := if ok then levelsOf i.doc else [] }
   | none =>
-    let m := recognise i.rx i.text
-    { okStruct := m, okJson := m, okVerifier := m, levels := [] }
+    let m := if i.kind == "ctor" then isOk ctorGuard else recognise i.rx i.text
+    { okStruct := m, okRepeat := [], okJson := m, okVerifier := m, okPair := m, okNew := m,
+      okNewWithOptions := m, levels := [] }
 
 /-- the enforcement map says integrity = enforce (and nothing else about integrity) -/
 def enforcesIntegrity (e : List KV) : Bool :=
@@ -589,16 +638,24 @@ def clauses (i : Input) (o : Obs) : Clauses :=
   match kindOf i.kind with
   | some k =>
     let wf := decide (WellFormed k i.doc)
+    let both := wf && optWF k.other i.other
     [ ("struct_document_accepted_iff_wellformed", o.okStruct == wf),
+      ("validate_answers_the_same_on_a_reused_document_object", o.okRepeat == [wf, wf, wf]),
       ("json_document_accepted_iff_wellformed", o.okJson == wf),
       ("verifier_construction_accepts_iff_wellformed", o.okVerifier == wf),
+      ("verifier_with_both_documents_accepts_iff_both_wellformed", o.okPair == both),
+      ("deprecated_constructors_accept_iff_wellformed", o.okNew == wf && o.okNewWithOptions == both),
       ("accepted_statement_enforces_integrity_unless_skip",
         !o.okStruct ||
           (o.levels.length == i.doc.statements.length &&
             (i.doc.statements.zip o.levels).all fun p =>
               p.1.level == Facts.levelSkipName || enforcesIntegrity p.2)) ]
   | none =>
-    [ ("recogniser_agrees_with_go", o.okStruct == recognise i.rx i.text) ]
+    if i.kind == "ctor" then
+      [ ("nil_documents_are_refused_and_give_no_verifier",
+          !(o.okStruct || o.okJson || o.okVerifier || o.okPair || o.okNew || o.okNewWithOptions)) ]
+    else
+      [ ("recogniser_agrees_with_go", o.okStruct == recognise i.rx i.text) ]
 
 def Holds (i : Input) (o : Obs) : Bool := (clauses i o).holds
 
